@@ -16,7 +16,13 @@ from ..util import (
     json_loads,
 )
 from . import get_metadata
-from .base import BaseStorage, BaseSubscription, BaseGarbageCollector, NostrQuery
+from .base import (
+    BaseStorage,
+    BaseSubscription,
+    BaseGarbageCollector,
+    NostrQuery,
+    event_from_json,
+)
 
 
 force_hex_translation = str.maketrans(
@@ -182,7 +188,7 @@ class DBStorage(BaseStorage):
         Return (status, event)
         """
         try:
-            event = Event(**event_json)
+            event = event_from_json(event_json)
         except Exception:
             self.log.error("bad json")
             raise StorageError("invalid: Bad JSON")
